@@ -82,7 +82,34 @@ theorem C06_plain_passthrough (m : Method) (mh cap : Nat) (t : Transport) (resp 
     (hg : ¬ declares resp.rawHeaders (str "gzip")) (hd : ¬ declares resp.rawHeaders (str "deflate")) :
     resp.coding = .plain := by
   rw [cz_parseResponse_coding hp]
-  exact (C06_select m resp.rawHeaders).2.2.mpr (Or.inr ⟨hg, hd⟩)
+  unfold codingFor
+  split
+  · rfl
+  · exact (C06_select m resp.rawHeaders).2.2.mpr (Or.inr ⟨hg, hd⟩)
+
+/-- A response that has no body (to HEAD, 1xx, 204, 304) is never put through a decoder, whatever
+    coding its header fields announce: its empty body reads as empty, not as a gzip stream that was
+    cut short at offset 0 (fix F21). For every other response `CompressedReader::new` decides. -/
+theorem C06_bodyless_not_decoded (m : Method) (mh cap : Nat) (t : Transport) (resp : Resp)
+    (hp : parseResponse m mh cap t = .ok resp) :
+    (bodyless m resp.status = true → resp.coding = .plain) ∧
+    (bodyless m resp.status = false → resp.coding = selectCoding m resp.rawHeaders) := by
+  rw [cz_parseResponse_coding hp]
+  unfold codingFor
+  constructor <;> intro h <;> simp [h]
+
+/-- non-vacuity: a `304` that announces `Content-Encoding: gzip` (nginx does) is read through the plain
+    reader although `CompressedReader::new` alone would pick the gzip decoder; a `200` is decoded -/
+example : (match parseResponse .get 100 64
+      (Ex.seg (str "HTTP/1.1 304 Not Modified\r\nContent-Encoding: gzip\r\n\r\n")) with
+    | .ok r => some (r.status, r.coding, selectCoding .get r.rawHeaders)
+    | _ => none) = some (304, .plain, .gzip) := by
+  decide +kernel
+example : (match parseResponse .get 100 64
+      (Ex.seg (str "HTTP/1.1 200 OK\r\nContent-Encoding: gzip\r\n\r\n")) with
+    | .ok r => some (r.status, r.coding)
+    | _ => none) = some (200, .gzip) := by
+  decide +kernel
 
 /-- the same on the wire: for a well-formed head `h` (the setting of C01 / C02) the selection is made
     on the field lines the server sent, so under C01's hypotheses plus "no coding declared" the
@@ -93,12 +120,15 @@ theorem C06_plain_passthrough_wire (h : HeadS) (rest : List Item) (t : Transport
     (hmh : h.fields.length ≤ mh) (hms : h.fields.length ≤ Headers.maxSize)
     (hflat : flatT t = bytesI h.render ++ rest)
     (hp : parseResponse m mh cap t = .ok resp) :
-    resp.coding = selectCoding m h.seen ∧
+    resp.coding = codingFor (bodyless m h.code) m h.seen ∧
     (¬ declares h.seen (str "gzip") → ¬ declares h.seen (str "deflate") → resp.coding = .plain) := by
   obtain ⟨_, hc⟩ := cz_head_coding h hh rest t cap mh m hwf hcap hmh hms hflat hp
   refine ⟨hc, fun hg hd => ?_⟩
   rw [hc]
-  exact (C06_select m h.seen).2.2.mpr (Or.inr ⟨hg, hd⟩)
+  unfold codingFor
+  split
+  · rfl
+  · exact (C06_select m h.seen).2.2.mpr (Or.inr ⟨hg, hd⟩)
 
 /-- non-vacuity: the `Content-Length: 11` response of C01's example declares no coding -/
 example : ∀ resp, parseResponse .get 100 8
